@@ -597,6 +597,8 @@ func (e *RouterEnv) Query(l string, wire []byte, client string, timeout, grace t
 	if i := strings.IndexByte(l, '@'); i >= 0 {
 		urlPath, l = l[i+1:], l[:i]
 	}
+	// "<path>?<prefix>#<suffix>": a GET asks <path>?<prefix>dns=<b64><suffix> (other pairs, empty pairs around the dns pair)
+	urlPath, qpre, qsuf := SplitQueryDecor(urlPath)
 	port := e.Ports[strings.TrimSuffix(strings.TrimSuffix(l, "-get"), "-post")]
 	switch {
 	case l == "udp" || l == "udpmr":
@@ -684,7 +686,7 @@ func (e *RouterEnv) Query(l string, wire []byte, client string, timeout, grace t
 		}
 		var req *http.Request
 		if strings.HasSuffix(l, "-get") {
-			req, _ = http.NewRequest("GET", base+"?dns="+B64(wire), nil)
+			req, _ = http.NewRequest("GET", base+"?"+qpre+"dns="+B64(wire)+qsuf, nil)
 			req.Header.Set("Accept", "application/dns-message")
 		} else {
 			req, _ = http.NewRequest("POST", base, bytes.NewReader(wire))
@@ -724,6 +726,11 @@ func (e *RouterEnv) SendRawUDP(b []byte) {
 // SendRawTCP writes arbitrary bytes (optionally as one length-prefixed frame) to a stream listener and
 // reports what the server did within a short time: "closed", "reply" or "open".
 func (e *RouterEnv) SendRawTCP(l string, b []byte, frame bool) string {
+	return e.SendRawTCPWait(l, b, frame, 150*time.Millisecond)
+}
+
+// SendRawTCPWait: as SendRawTCP, waiting up to wait for the first octet of a reply.
+func (e *RouterEnv) SendRawTCPWait(l string, b []byte, frame bool, wait time.Duration) string {
 	c, err := net.DialTimeout("tcp", fmt.Sprintf("127.0.0.1:%d", e.Ports[l]), time.Second)
 	if err != nil {
 		return "dial-error"
@@ -733,7 +740,7 @@ func (e *RouterEnv) SendRawTCP(l string, b []byte, frame bool) string {
 		b = append(binary.BigEndian.AppendUint16(nil, uint16(len(b))), b...)
 	}
 	c.Write(b)
-	c.SetReadDeadline(time.Now().Add(150 * time.Millisecond))
+	c.SetReadDeadline(time.Now().Add(wait))
 	buf := make([]byte, 4096)
 	n, err := c.Read(buf)
 	if n > 0 {
@@ -868,4 +875,16 @@ func (e *RouterEnv) queryQuic(port int, wire []byte, src net.IP, timeout, grace 
 		return nil, "no-response"
 	}
 	return resps, "ok"
+}
+
+// SplitQueryDecor splits "<path>?<prefix>#<suffix>" (see Query).
+func SplitQueryDecor(p string) (path, pre, suf string) {
+	path = p
+	if j := strings.IndexByte(path, '?'); j >= 0 {
+		pre, path = path[j+1:], path[:j]
+		if k := strings.IndexByte(pre, '#'); k >= 0 {
+			suf, pre = pre[k+1:], pre[:k]
+		}
+	}
+	return
 }
